@@ -285,6 +285,31 @@ where F: Frame, F::Sample: Flt, D: Detect<F>, <D::Output as Frame>::Sample: Flt 
     (v, pos_ok)
 }
 
+/// the reverse hand-over: the first `h` operations on the BARE detector, which is then wrapped (`source.detect_envelope(det)`)
+/// in its used state — previous envelope, current gains — for the rest: a detector does not start over when it is wrapped
+fn drive_wrap_warm<F, D>(mut det: Detector<F, D>, ops: &[EOp], h: usize) -> Vec<String>
+where F: Frame, F::Sample: Flt, D: Detect<F>, <D::Output as Frame>::Sample: Flt {
+    let frames: Vec<F> = ops.iter().filter_map(|op| if let EOp::Next(raw) = op { Some(F::from_fn(|i| <F::Sample as Flt>::from_b(raw[i]))) } else { None }).collect();
+    let mut v = Vec::new();
+    let mut k = 0usize;
+    for op in &ops[..h] {
+        match op {
+            EOp::Next(_) => { v.push(frame_tok(det.next(frames[k]))); k += 1; }
+            EOp::Attack(x) => { det.set_attack_frames(*x); v.push("-".into()); }
+            EOp::Release(x) => { det.set_release_frames(*x); v.push("-".into()); }
+        }
+    }
+    let mut s = signal::from_iter(frames[k..].to_vec()).detect_envelope(det);
+    for op in &ops[h..] {
+        match op {
+            EOp::Next(_) => v.push(frame_tok(s.next())),
+            EOp::Attack(x) => { s.set_attack_frames(*x); v.push("-".into()); }
+            EOp::Release(x) => { s.set_release_frames(*x); v.push("-".into()); }
+        }
+    }
+    v
+}
+
 fn with_det<F>(det: Det, a: f32, r: f32, ops: &[EOp], sig: Option<usize>) -> Option<Vec<(String, Option<Vec<f64>>)>>
 where F: Frame + 'static, F::Sample: Flt, <F::Signed as Frame>::Sample: Flt, <F::Float as Frame>::Sample: Flt {
     guarded(|| match (det, sig) {
@@ -296,6 +321,16 @@ where F: Frame + 'static, F::Sample: Flt, <F::Signed as Frame>::Sample: Flt, <F:
         (Det::Ph, Some(x)) => drive_sig(Detector::<F, _>::peak_positive_half_wave(a, r), ops, x),
         (Det::Nh, Some(x)) => drive_sig(Detector::<F, _>::peak_negative_half_wave(a, r), ops, x),
         (Det::Rms(n), Some(x)) => drive_sig(Detector::<F, Rms<F, Vec<F::Float>>>::rms(Fixed::from(vec![F::Float::EQUILIBRIUM; n]), a, r), ops, x),
+    })
+}
+
+fn with_wrap_warm<F>(det: Det, a: f32, r: f32, ops: &[EOp], h: usize) -> Option<Vec<String>>
+where F: Frame + 'static, F::Sample: Flt, <F::Signed as Frame>::Sample: Flt, <F::Float as Frame>::Sample: Flt {
+    guarded(|| match det {
+        Det::Fw => drive_wrap_warm(Detector::<F, _>::peak(a, r), ops, h),
+        Det::Ph => drive_wrap_warm(Detector::<F, _>::peak_positive_half_wave(a, r), ops, h),
+        Det::Nh => drive_wrap_warm(Detector::<F, _>::peak_negative_half_wave(a, r), ops, h),
+        Det::Rms(n) => drive_wrap_warm(Detector::<F, Rms<F, Vec<F::Float>>>::rms(Fixed::from_raw_parts(ops.len() % n.max(1), vec![F::Float::EQUILIBRIUM; n]), a, r), ops, h),
     })
 }
 
@@ -465,6 +500,13 @@ where F: Frame + 'static, F::Sample: Flt, <F::Signed as Frame>::Sample: Flt, <F:
                 let h = (nexts * 5 + changes * 3 + extra) % (ops.len() + 1);
                 let rep = (nexts * 3 + extra) % (nexts + 2);
                 st.count(if h > 0 && !matches!(ops[h - 1], EOp::Next(_)) { "hand-over right after a setter" } else if h == 0 { "hand-over before the first frame" } else { "hand-over after a frame" });
+                match with_wrap_warm::<F>(det, a, r, &ops, h) {
+                    None => st.oracle_fail("detector / detect_envelope panicked", &req, "no panic", "panic"),
+                    Some(v) => {
+                        let same = v.len() == ops.len() && v.iter().zip(direct.iter()).all(|(x, y)| *x == y.0);
+                        if same { st.oracle_ok(v.len() as u64); st.count("used detector wrapped mid-history"); } else { st.oracle_fail(&format!("the bare detector for the first {} operations, then wrapped by detect_envelope in its used state: outputs differ from the detector fed the same frames throughout", h), &req, &direct.iter().map(|t| t.0.clone()).collect::<Vec<_>>().join(" "), &v.join(" ")); }
+                    }
+                }
                 match with_handover::<F>(det, a, r, &ops, h, rep) {
                     None => st.oracle_fail("adaptor / into_parts panicked", &req, "no panic", "panic"),
                     Some((v, pos_ok)) => {
